@@ -113,6 +113,34 @@ theorem mem_usedNames {ds : List Decl} {n : Name} :
     · exact Or.inl (Or.inr h)
     · exact Or.inr ⟨f, ⟨hf, he⟩, h⟩
 
+theorem mem_deadStaticLocalRefs {ds : List Decl} {n : Name} :
+    n ∈ deadStaticLocalRefs ds ↔ ∃ f, f ∈ fnNames ds ∧ fnDefined (fnDecls ds f) = true ∧ fnEmitted ds f = false ∧
+      ∃ tls ty items, BodyItem.staticLocal tls ty (some items) ∈ fnBody (fnDecls ds f) ∧
+        (n ∈ initFnRefs items ∨ n ∈ initObjRefs items) := by
+  unfold deadStaticLocalRefs
+  rw [List.mem_flatMap]
+  constructor
+  · rintro ⟨f, hf, hn⟩
+    split at hn
+    · rename_i hc
+      simp only [Bool.and_eq_true, Bool.not_eq_true'] at hc
+      rw [List.mem_flatMap] at hn
+      obtain ⟨it, hit, hn⟩ := hn
+      cases it with
+      | staticLocal tls ty init =>
+        cases init with
+        | none => simp at hn
+        | some items => exact ⟨f, hf, hc.1, hc.2, tls, ty, items, hit, List.mem_append.mp hn⟩
+      | ref => simp at hn
+      | str => simp at hn
+      | externObj => simp at hn
+    · cases hn
+  · rintro ⟨f, hf, hd, he, tls, ty, items, hit, hn⟩
+    refine ⟨f, hf, ?_⟩
+    simp only [hd, he, Bool.not_false, Bool.and_self, if_true]
+    rw [List.mem_flatMap]
+    exact ⟨_, hit, List.mem_append.mpr hn⟩
+
 section
 variable {ds : List Decl} (u : UnitOK ds) {st : PState} {gs1 gs : List Obj} (p : Parsed ds st gs1 gs)
 include u p
@@ -144,7 +172,7 @@ theorem fnEmitted_iff {f : Name} {o0 : Obj} (h0 : findFunc st.globals f = some o
     simp
 
 /-- **the identifiers mentioned by what is printed are the Spec's `usedNames`** -/
-theorem uses_iff (n : Name) : Sym.named n ∈ emittedUses gs ↔ n ∈ usedNames ds := by
+theorem uses_iff (n : Name) : Sym.named n ∈ emittedUses gs ↔ n ∈ usedNames ds ∨ n ∈ deadStaticLocalRefs ds := by
   rw [mem_emittedUses, mem_usedNames]
   constructor
   · rintro ⟨o, ho, hP, hn⟩
@@ -159,8 +187,8 @@ theorem uses_iff (n : Name) : Sym.named n ∈ emittedUses gs ↔ n ∈ usedNames
         | none => cases hn'
         | some items =>
           rcases named_mem_initLabels.mp hn' with h | h
-          · exact Or.inl (mem_fileFnRefs.mpr ⟨x, s, e, t, ty, items, hd, h⟩)
-          · exact Or.inr (Or.inl (mem_fileObjRefs.mpr ⟨x, s, e, t, ty, items, hd, h⟩))
+          · exact Or.inl (Or.inl (mem_fileFnRefs.mpr ⟨x, s, e, t, ty, items, hd, h⟩))
+          · exact Or.inl (Or.inr (Or.inl (mem_fileObjRefs.mpr ⟨x, s, e, t, ty, items, hd, h⟩)))
       | ext hd hb => simp [externO] at hn'
       | @sl f m s e i b tls ty init k hd hb =>
         cases init with
@@ -172,25 +200,15 @@ theorem uses_iff (n : Name) : Sym.named n ∈ emittedUses gs ↔ n ∈ usedNames
           have hfn : f ∈ fnNames ds := mem_fnNames_of_mem hd
           have hdef : fnDefined (fnDecls ds f) = true := by
             unfold fnDefined; rw [List.any_eq_true]; exact ⟨_, hmem, rfl⟩
-          have hem : fnEmitted ds f = true := by
-            have hr := u.noDeadSL
-            unfold deadStaticLocalRegion at hr
-            rw [List.any_eq_false] at hr
-            have := hr f hfn
-            rw [hdef, Bool.true_and] at this
-            cases he : fnEmitted ds f
-            · exfalso
-              rw [he] at this
-              simp only [Bool.not_false, Bool.true_and, Bool.not_eq_true] at this
-              rw [List.any_eq_false] at this
-              have := this (.staticLocal tls ty (some items)) (by rw [← hbody]; exact hb)
-              exact this (initRefs_any hrefs)
-            · rfl
-          refine Or.inr (Or.inr ⟨f, hfn, hem, ?_⟩)
-          rw [← hbody]
-          rcases hrefs with h | h
-          · exact Or.inl (mem_bodyFnRefs.mpr (Or.inr ⟨tls, ty, items, hb, h⟩))
-          · exact Or.inr (mem_bodyObjRefs.mpr (Or.inr ⟨tls, ty, items, hb, h⟩))
+          cases hem : fnEmitted ds f
+          · -- a static local of a function that is not emitted: the datum is emitted all the same
+            right
+            exact mem_deadStaticLocalRefs.mpr ⟨f, hfn, hdef, hem, tls, ty, items, by rw [← hbody]; exact hb, hrefs⟩
+          · refine Or.inl (Or.inr (Or.inr ⟨f, hfn, hem, ?_⟩))
+            rw [← hbody]
+            rcases hrefs with h | h
+            · exact Or.inl (mem_bodyFnRefs.mpr (Or.inr ⟨tls, ty, items, hb, h⟩))
+            · exact Or.inr (mem_bodyObjRefs.mpr (Or.inr ⟨tls, ty, items, hb, h⟩))
       | str => simp [strObj] at hn'
     · -- a function
       obtain ⟨f, o0, h0, rfl⟩ := p.fn_of_mem ho hf
@@ -204,7 +222,7 @@ theorem uses_iff (n : Name) : Sym.named n ∈ emittedUses gs ↔ n ∈ usedNames
       have hNU := NU_parse p.hst f (u.oneBody f) hdef
       simp only [NU, U, h0, Option.map_some, Option.some.injEq] at hNU
       have : n ∈ directRefs (fnBody (fnDecls ds f)) := by rw [← hNU]; exact mem_namedOf.mpr hn
-      refine Or.inr (Or.inr ⟨f, hfn, hem, ?_⟩)
+      refine Or.inl (Or.inr (Or.inr ⟨f, hfn, hem, ?_⟩))
       rcases mem_directRefs.mp this with h | h
       · exact Or.inl (mem_bodyFnRefs.mpr (Or.inl h))
       · exact Or.inr (mem_bodyObjRefs.mpr (Or.inl h))
@@ -214,7 +232,19 @@ theorem uses_iff (n : Name) : Sym.named n ∈ emittedUses gs ↔ n ∈ usedNames
       intro x s e t ty items hd hr
       obtain ⟨k, hk⟩ := var_mem_allNews ds 0 hd
       exact ⟨_, p.mem_of_data_nt hk rfl, rfl, named_mem_initLabels.mpr hr⟩
-    rintro (h | h | ⟨f, hfn, hem, h⟩)
+    have viaSL' : ∀ f, fnDefined (fnDecls ds f) = true → ∀ tls ty items,
+        BodyItem.staticLocal tls ty (some items) ∈ fnBody (fnDecls ds f) →
+        (n ∈ initFnRefs items ∨ n ∈ initObjRefs items) → ∃ o, o ∈ gs ∧ emittedP o = true ∧ Sym.named n ∈ o.uses := by
+      intro f hdef tls ty items hb hr
+      obtain ⟨d, hd, hbd⟩ := mem_fnBody hdef
+      obtain ⟨m, hm⟩ := mem_fnDecls.mp hd
+      rw [hbd] at hm
+      obtain ⟨k, hk⟩ := sl_mem_allNews ds 0 hm hb
+      exact ⟨_, p.mem_of_data_nt hk rfl, rfl, named_mem_initLabels.mpr hr⟩
+    rintro ((h | h | ⟨f, hfn, hem, h⟩) | hdead)
+    rotate_left 3
+    · obtain ⟨f, _, hdef, _, tls, ty, items, hb, hr⟩ := mem_deadStaticLocalRefs.mp hdead
+      exact viaSL' f hdef tls ty items hb hr
     · obtain ⟨x, s, e, t, ty, items, hd, hg⟩ := mem_fileFnRefs.mp h
       exact fromVar x s e t ty items hd (Or.inl hg)
     · obtain ⟨x, s, e, t, ty, items, hd, hg⟩ := mem_fileObjRefs.mp h
@@ -235,14 +265,7 @@ theorem uses_iff (n : Name) : Sym.named n ∈ emittedUses gs ↔ n ∈ usedNames
         · show Sym.named n ∈ o0.uses
           rw [← mem_namedOf, hNU]
           exact mem_directRefs.mpr hd
-      have viaSL : ∀ tls ty items, BodyItem.staticLocal tls ty (some items) ∈ fnBody (fnDecls ds f) →
-          (n ∈ initFnRefs items ∨ n ∈ initObjRefs items) → ∃ o, o ∈ gs ∧ emittedP o = true ∧ Sym.named n ∈ o.uses := by
-        intro tls ty items hb hr
-        obtain ⟨d, hd, hbd⟩ := mem_fnBody hdef
-        obtain ⟨m, hm⟩ := mem_fnDecls.mp hd
-        rw [hbd] at hm
-        obtain ⟨k, hk⟩ := sl_mem_allNews ds 0 hm hb
-        exact ⟨_, p.mem_of_data_nt hk rfl, rfl, named_mem_initLabels.mpr hr⟩
+      have viaSL := viaSL' f hdef
       rcases h with h | h
       · rcases mem_bodyFnRefs.mp h with h | ⟨tls, ty, items, hb, hg⟩
         · exact direct (Or.inl h)
@@ -263,6 +286,10 @@ theorem data_def_objName {o : Obj} {x : Name} (ho : o ∈ gs) (hf : o.isFunction
 /-- what the output defines is what the Spec says is defined -/
 def specDefined (ds : List Decl) (n : Name) : Prop :=
   (n ∈ objNames ds ∧ objDefined (objDecls ds n) = true) ∨ (n ∈ fnNames ds ∧ fnEmitted ds n = true)
+
+omit u p in
+theorem definedHere_iff (n : Name) : definedHere ds n = true ↔ specDefined ds n := by
+  simp [definedHere, specDefined]
 
 theorem defined_iff (n : Name) :
     (∃ o, o ∈ gs ∧ o.sym = .named n ∧ ((o.isFunction = false ∧ o.isDefinition = true) ∨
@@ -513,10 +540,22 @@ theorem symbols_iff {ds : List Decl} (u : UnitOK ds) {st : PState} {gs1 gs : Lis
       obtain ⟨hu, hnd⟩ := mem_undefs.mp hs
       have hsn : s = .named n := hsym
       subst hsn
-      have hused : n ∈ usedNames ds := (uses_iff u p n).mp hu
       have hnot : ¬ specDefined ds n := by
         intro hsd
         rw [(hdefd n).mpr hsd] at hnd; cases hnd
+      have hused : n ∈ usedNames ds := by
+        rcases (uses_iff u p n).mp hu with h | h
+        · exact h
+        · -- named only by a static local of a dead function: outside the region it is used or defined anyway
+          have hr := u.noDeadSL
+          unfold deadStaticLocalVisibleRegion at hr
+          rw [List.any_eq_false] at hr
+          have := hr n h
+          simp only [Bool.and_eq_true, Bool.not_eq_true', List.contains_eq_mem, decide_eq_false_iff_not, not_and,
+            Bool.not_eq_false] at this
+          by_cases hun : n ∈ usedNames ds
+          · exact hun
+          · exact absurd ((definedHere_iff n).mp (this hun)) hnot
       by_cases hfn : n ∈ fnNames ds
       · left
         refine ⟨n, hfn, ?_⟩
@@ -550,7 +589,7 @@ theorem symbols_iff {ds : List Decl} (u : UnitOK ds) {st : PState} {gs1 gs : Lis
           simp only [Option.some.injEq] at hfs
           subst hfs
           have hused : f ∈ usedNames ds := by simpa using hc
-          refine ⟨⟨f, rfl⟩, Or.inr (Or.inr ⟨.named f, mem_undefs.mpr ⟨(uses_iff u p f).mpr hused, ?_⟩, rfl⟩)⟩
+          refine ⟨⟨f, rfl⟩, Or.inr (Or.inr ⟨.named f, mem_undefs.mpr ⟨(uses_iff u p f).mpr (Or.inl hused), ?_⟩, rfl⟩)⟩
           cases hany : (emit fc gs).any (fun e => e.sym == Sym.named f)
           · rfl
           · exfalso
@@ -578,7 +617,7 @@ theorem symbols_iff {ds : List Decl} (u : UnitOK ds) {st : PState} {gs1 gs : Lis
           simp only [Option.some.injEq] at hos
           subst hos
           have hused : x ∈ usedNames ds := by simpa using hc
-          refine ⟨⟨x, rfl⟩, Or.inr (Or.inr ⟨.named x, mem_undefs.mpr ⟨(uses_iff u p x).mpr hused, ?_⟩, rfl⟩)⟩
+          refine ⟨⟨x, rfl⟩, Or.inr (Or.inr ⟨.named x, mem_undefs.mpr ⟨(uses_iff u p x).mpr (Or.inl hused), ?_⟩, rfl⟩)⟩
           cases hany : (emit fc gs).any (fun e => e.sym == Sym.named x)
           · rfl
           · exfalso
@@ -592,7 +631,7 @@ theorem symbols_iff {ds : List Decl} (u : UnitOK ds) {st : PState} {gs1 gs : Lis
         obtain ⟨o, ho, hfo, hdo, hso⟩ := data_exists p ok hD
         obtain ⟨_, hent⟩ := data_entry p ok fc ho hfo hdo hso
         exact ⟨⟨x, rfl⟩, Or.inl ⟨o, ho, hent⟩⟩
-    · refine ⟨⟨x, rfl⟩, Or.inr (Or.inr ⟨.named x, mem_undefs.mpr ⟨(uses_iff u p x).mpr hused, ?_⟩, rfl⟩)⟩
+    · refine ⟨⟨x, rfl⟩, Or.inr (Or.inr ⟨.named x, mem_undefs.mpr ⟨(uses_iff u p x).mpr (Or.inl hused), ?_⟩, rfl⟩)⟩
       cases hany : (emit fc gs).any (fun e => e.sym == Sym.named x)
       · rfl
       · exfalso
@@ -603,7 +642,7 @@ theorem symbols_iff {ds : List Decl} (u : UnitOK ds) {st : PState} {gs1 gs : Lis
 /-! ### from the decidable hypotheses of the theorem -/
 
 theorem unitOK_of {ds : List Decl} (hv : valid ds = true) (hf : flagsFrozenDefRegion ds = false)
-    (hd : deadStaticLocalRegion ds = false) (hc : compositeSizeRegion ds = false)
+    (hd : deadStaticLocalVisibleRegion ds = false) (hc : compositeSizeRegion ds = false)
     (he : externInitAfterStaticRegion ds = false) (hs : symbolsSide ds = true) : UnitOK ds := by
   simp only [symbolsSide, Bool.and_eq_true, List.all_eq_true] at hs
   refine ⟨hv, hs.1, fun x hx => ?_, hf, hd⟩
@@ -626,7 +665,7 @@ theorem unitOK_of {ds : List Decl} (hv : valid ds = true) (hf : flagsFrozenDefRe
 
 /-- **C15_symbols, outside the known-finding regions** (lemma form; Props/C15.lean states it with `InScope`) -/
 theorem symbols_partial_lemma (fcommon : Bool) {ds : List Decl} (hv : valid ds = true)
-    (hf : flagsFrozenDefRegion ds = false) (hd : deadStaticLocalRegion ds = false) (hc : compositeSizeRegion ds = false)
+    (hf : flagsFrozenDefRegion ds = false) (hd : deadStaticLocalVisibleRegion ds = false) (hc : compositeSizeRegion ds = false)
     (he : externInitAfterStaticRegion ds = false) (hs : symbolsSide ds = true) :
     ∃ gs, parseUnit ds = .ok gs ∧ (∀ e, e ∈ objectSymbols fcommon gs ↔ e ∈ symbols fcommon ds) := by
   have u := unitOK_of hv hf hd hc he hs
